@@ -88,8 +88,8 @@ def part_headers(p):
     hs = [("Content-Disposition", cd)]
     if p.get("ctype"):
         hs.append(("Content-Type", p["ctype"]))
-    for k, v in p.get("extra") or ():
-        hs.append((k, v))
+    for e in p.get("extra") or ():
+        hs.append((e[0], e[1]))
     return hs
 
 
@@ -102,8 +102,9 @@ def build_body(parts, boundary: bytes, nl: bytes, preamble=b"", epilogue=b"", fi
             out += nl
         first = False
         out += b"--" + boundary + pad + nl
+        wire = {e[0]: e[2] for e in (p.get("extra") or ()) if len(e) > 2}
         for k, v in part_headers(p):
-            out += k.encode() + b": " + v.encode() + nl
+            out += k.encode() + b": " + wire.get(k, v).encode().replace(b"\n", nl) + nl
         if p["payload"] is not None:
             out += nl + p["payload"]
     if not first or first_lb or preamble:
@@ -244,6 +245,20 @@ def expected_hl(parts):
 # --------------------------------------------------------------------------- local collector
 
 
+def qualifier(case):
+    """input class appended to the check name (a predicate on the *input*, so that known findings can be keyed
+    by check name): padding_long | bodyless (some part has no body at all) | nl_payload (some payload contains
+    CR or LF) | plain"""
+    if case.get("tag") == "padding_long":
+        return "padding_long"
+    pls = [p["payload"] for p in case["parts"]]
+    if any(pl is None for pl in pls):
+        return "bodyless"
+    if any(b"\r" in pl or b"\n" in pl for pl in pls):
+        return "nl_payload"
+    return "plain"
+
+
 class Local:
     """per-worker tally; merged into the Collector by the parent"""
 
@@ -252,8 +267,10 @@ class Local:
         self.distinct = set()
         self.fails = {}
         self.samples = []
+        self.q = "plain"
 
     def case(self, check, body, nontrivial=True, n=1):
+        check = check + ":" + self.q
         self.evals += n
         if nontrivial:
             self.distinct.add((check, hashlib.blake2b(body, digest_size=8).digest()))
@@ -261,7 +278,7 @@ class Local:
             self.samples.append((check, body))
 
     def fail(self, check, inp, observed, expected):
-        lst = self.fails.setdefault(check, [])
+        lst = self.fails.setdefault(check + ":" + self.q, [])
         if len(lst) < PER_CHECK_FAILS:
             lst.append((inp, observed, expected))
 
@@ -285,6 +302,7 @@ def _inp(case, **kw):
 def check_body(L: Local, case, do3=False, hl=False, rnd=None, krandom=0, wsgi=False):
     """case: {"boundary", "body", "parts" (generator parts), "tag"}"""
     boundary, body, parts = case["boundary"], case["body"], case["parts"]
+    L.q = qualifier(case)
     nontrivial = len(parts) > 0
     exp = expected_parts(parts)
     n = len(body)
@@ -420,6 +438,22 @@ def task_single(args):
     return L.pack(), skipped
 
 
+def task_deep(args):
+    """single-part bodies, payloads of length lo..hi over the reduced alphabet {newline bytes of the framing, 'x'}"""
+    boundary, nlname, lo, hi = args
+    L = Local()
+    skipped = 0
+    sig = [c for c in SIGMA[nlname] if c in (b"\r", b"\n", b"x")]
+    for n in range(lo, hi + 1):
+        for combo in itertools.product(sig, repeat=n):
+            c = mk_case([part("field", "a", b"".join(combo))], boundary, nlname, "deep")
+            if c is None:
+                skipped += 1
+                continue
+            check_body(L, c)
+    return L.pack(), skipped
+
+
 def _pl_small(nlname, maxlen):
     return [None] + list(payloads(nlname, maxlen))
 
@@ -432,6 +466,8 @@ def task_multi(args):
     pls = _pl_small(nlname, maxlen) if maxlen >= 0 else [None, b""] + [x for x in (b"\r", b"\n") if x in SIGMA[nlname]]
     kinds = ["field", "file", "field"]
     names = ["a", "f", "a"]  # repeated field name on purpose
+    if do3:
+        kinds = ["field", "field", "field"]  # shorter bodies for the quadratic number of 3-way splits
     for combo in itertools.product(pls, repeat=nparts - 1):
         parts = []
         for i, pl in enumerate((first_pl,) + combo):
@@ -490,6 +526,10 @@ def corpus(tier):
         # headers: extra headers, continuation line, odd spacing
         add([part("file", "f", b"data", filename="n.txt", ctype="text/plain; charset=utf-8",
                   extra=[("X-Extra", "1"), ("Content-Length", "4")])], nlname=nlname)
+        # folded header (RFC 2231 continuation line): comes back unfolded, joined by one blank
+        add([part("file", "f", b"data", filename="n.txt", ctype="text/plain",
+                  extra=[("X-Folded", "first second third", "first\n second\n\tthird"), ("X-After", "1")]),
+             part("field", "a", b"v", extra=[("X-Folded", "p q", "p\n q")])], nlname=nlname)
         # other boundaries and near-copies of them in the payload
         for bd in (b"bb", LONG_BOUNDARY, SPECIAL_BOUNDARY, B70):
             near = [nl + b"--" + bd[:-1], nl + b"--" + bd + b"x", b"--" + bd, nl + b"-" + bd + nl,
@@ -545,15 +585,9 @@ def task_corpus(args):
 
 
 def task_padding(args):
-    L0 = Local()
-    for c in corpus_padding_long():
-        check_body(L0, c, do3=False, hl=False)
-    # rename the checks so that the finding is kept apart
     L = Local()
-    L.evals = L0.evals
-    L.distinct = {("padding_long:" + k, h) for k, h in L0.distinct}
-    L.fails = {"padding_long:" + k: v for k, v in L0.fails.items()}
-    L.samples = L0.samples
+    for c in corpus_padding_long():
+        check_body(L, c, do3=False, hl=False)
     return L.pack(), 0
 
 
@@ -612,14 +646,17 @@ def _dispatch(t):
 def _tasks(tier, seed):
     tasks = []
     thorough = tier == "thorough"
-    # G1: single part, every payload over the 5-symbol alphabet, all 2-way splits + bytewise
-    g1_len = {"crlf": 7, "lf": 8, "cr": 8} if thorough else {"crlf": 6, "lf": 6, "cr": 6}
+    # G1: single part, every payload over the 5-symbol alphabet, all 2-way splits + bytewise;
+    # beyond that length every payload over the newline-structure alphabet {CR, LF, x}
+    g1_len = {"crlf": 7, "lf": 7, "cr": 7} if thorough else {"crlf": 5, "lf": 5, "cr": 5}
+    g1_deep = 10 if thorough else 7
     for nlname in NLS:
         for pre in payloads(nlname, 2, 2):
             tasks.append(("task_single", (b"b", nlname, pre, g1_len[nlname], False, False, "field")))
         for pl in payloads(nlname, 1):
             # the short payloads themselves (prefix == whole payload)
             tasks.append(("task_single", (b"b", nlname, pl, len(pl), False, False, "field")))
+        tasks.append(("task_deep", (b"b", nlname, g1_len[nlname] + 1, g1_deep)))
     # two-byte boundary / file kind
     g1b = 6 if thorough else 4
     for nlname in NLS:
@@ -658,18 +695,19 @@ def _tasks(tier, seed):
 
 def _domain(tier):
     t = tier == "thorough"
-    d = ("boundary b'b': 1 part, every payload over {CR,LF,'-','b','x'} of length<=%s (bare-LF / bare-CR framing: same "
-         "alphabet without the other newline kind%s) x all 2-way splits + byte-at-a-time; length<=%s also x all 3-way "
+    d = ("boundary b'b': 1 part, every payload over {CR,LF,'-','b','x'} of length<=%s and over {CR,LF,'x'} of "
+         "length<=%s (bare-LF / bare-CR framing: same alphabets without the other newline kind) x all 2-way splits + "
+         "byte-at-a-time; length<=%s also x all 3-way "
          "splits, every buffer_size 1..len+1 and short-read schedules of MultiPartParser; boundary b'bb' length<=%s "
-         "(file parts); 2 parts (field+file, payloads length<=%s or body-less) x 2-way, (%s) x 3-way; 3 parts "
+         "(file parts); 2 parts (field+file, payloads length<=%s or body-less) x 2-way, (two fields, %s) x 3-way; 3 parts "
          "(length<=%s or body-less, repeated field name) x 2-way; corpus (0 parts, preamble/epilogue, optional first "
          "line break, padding of 1-2 blanks, long lines 20..200, binary, boundaries of 2/37/70 bytes and with regex "
          "metacharacters, with near-copies) x 2-way, 3-way (len<=%s), byte-at-a-time, %s seeded random k-way splits, "
-         "parse_form_data over short-reading wsgi.input; separate check padding_long (9..40 blanks of transport "
-         "padding). Payloads that themselves contain a delimiter line are not bodies of the intended shape and are "
+         "parse_form_data over short-reading wsgi.input; separate input class padding_long (9..40 blanks of transport "
+         "padding). Check names carry the input class (plain | nl_payload | bodyless | padding_long). Payloads that themselves contain a delimiter line are not bodies of the intended shape and are "
          "skipped (counted in skipped_out_of_domain)." % (
-             (7, ", length<=8", 5, 6, 3, "both length<=1", 2, 400, 40) if t else
-             (6, "", 3, 4, 2, "first length<=1, second in {body-less, empty, CR, LF}", 1, 110, 10)))
+             (7, 10, 5, 6, 3, "both length<=1", 2, 400, 40) if t else
+             (5, 7, 3, 4, 2, "first length<=1, second in {body-less, empty, CR, LF}", 1, 110, 10)))
     if t:
         d += (" Plus 5760 seeded random bodies (1-4 parts, 5 boundaries, payloads of up to 12 atoms incl. NUL/0xFF/"
               "near-boundaries) x 2-way, bytewise, 3-way (len<=130), 30 random k-way splits, parser buffer sizes "
@@ -705,7 +743,7 @@ def run(tier: str, seed: int, reg=None) -> dict:
             col.fail(check, inp, obs, exp)
     res = col.result()
     res["skipped_out_of_domain"] = skipped
-    res["failing_checks"] = {k: len(v) for k, v in sorted(fails.items())}
+    res["failing_checks_capped_per_task"] = {k: len(v) for k, v in sorted(fails.items())}
     return res
 
 
@@ -714,8 +752,7 @@ def replay(payload: dict) -> bool:
     check = payload["obligation"].split(":", 1)[1]
     inp = common.unj(payload["inputs"])
     boundary, body = inp["boundary"], inp["body"]
-    if check.startswith("padding_long:"):
-        check = check.split(":", 1)[1]
+    check = check.split(":", 1)[0]
     n = len(body)
     parts = inp.get("parts") or []
     for p in parts:
